@@ -127,6 +127,26 @@ theorem mem_akeys_of_alookup {α : Type} (k : Nat) (v : α) (l : List (Nat × α
       simp only [akeys, List.map_cons, List.mem_cons]
       exact Or.inr (ih h)
 
+theorem exists_alookup_of_mem {α : Type} (k : Nat) (l : List (Nat × α))
+    (h : k ∈ akeys l) : ∃ v, alookup k l = some v := by
+  induction l with
+  | nil => simp [akeys] at h
+  | cons p rest ih =>
+    obtain ⟨k', v'⟩ := p
+    by_cases h1 : k' = k
+    · exact ⟨v', by simp [h1]⟩
+    · simp only [akeys, List.map_cons, List.mem_cons] at h
+      rcases h with h | h
+      · exact absurd h.symm h1
+      · obtain ⟨v, hv⟩ := ih h
+        exact ⟨v, by simp [h1, hv]⟩
+
+theorem not_mem_of_alookup_none {α : Type} (k : Nat) (l : List (Nat × α))
+    (h : alookup k l = none) : k ∉ akeys l := by
+  intro hm
+  obtain ⟨v, hv⟩ := exists_alookup_of_mem k l hm
+  rw [hv] at h; cases h
+
 theorem aerase_length_lt_of_mem {α : Type} (k : Nat) (l : List (Nat × α))
     (h : k ∈ akeys l) : (aerase k l).length < l.length := by
   induction l with
